@@ -1,4 +1,5 @@
 """C15 — sprt applies Wald's rule to every prefix of the sample; error bounds hold."""
+import functools
 import itertools
 from fractions import Fraction as Fr
 import numpy as np
@@ -54,6 +55,15 @@ def sprt_call(S, *a, **k):
 INF_R = Fr(10**30)      # stands for a likelihood ratio of +inf in the tables sent to the model (larger than every threshold used)
 
 
+class _Ratio:
+    """a likelihood-ratio function that is an object with __call__ (not a plain function)"""
+    def __init__(self, S, po, pa):
+        self.S, self.po, self.pa = S, po, pa
+
+    def __call__(self, x):
+        return self.S.bernoulli_lh_ratio(np.array(x), self.po, self.pa) if len(x) else 1.0
+
+
 def run(ctx):
     from permute import sprt as S
     ops, meta = [], []
@@ -71,7 +81,18 @@ def run(ctx):
                     if n == 0 and not ro:
                         continue
                     x = list(x)
-                    r = sprt_call(S, lrf, float(al), float(be), x, ro)
+                    # the same ratio function handed over in the other ways callers write it
+                    form = ctx.rng.choice(["lambda", "lambda", "partial-pa-first", "partial-po-first", "callable-object"]) if n > 0 else "lambda"
+                    if form == "partial-pa-first":
+                        lr_arg = functools.partial(S.bernoulli_lh_ratio, pa=float(pa), po=float(po))
+                    elif form == "partial-po-first":
+                        lr_arg = functools.partial(S.bernoulli_lh_ratio, po=float(po), pa=float(pa))
+                    elif form == "callable-object":
+                        lr_arg = _Ratio(S, float(po), float(pa))
+                    else:
+                        lr_arg = lrf
+                    ctx.count("ratio-given-as-" + form)
+                    r = sprt_call(S, lr_arg, float(al), float(be), x, ro)
                     want = spec(lrf, float(al), float(be), x, ro)
                     key = ("bern", po, pa, al, be, tuple(x), ro)
                     ctx.count("bern-len=%d" % n)
@@ -100,6 +121,25 @@ def run(ctx):
         if r[0] != "ok" or not close(r[1], prod):
             ctx.violation("oracle", {"call": "bernoulli_lh_ratio", "x": x, "given_as": cont, "po": po, "pa": pa, "returned": r[1:], "expected": prod}, site="bernoulli_lh_ratio")
         ops.append(f"bernlr|{rat(po)}|{rat(pa)}|{ints(x)}"); meta.append((("lrm", po, pa, tuple(x)), r[1] if r[0] == "ok" else None, None))
+    # ---- ratios that are exact rationals a hair inside / outside a threshold, or integers beyond the double range: Wald's rule is a
+    #      comparison of real numbers (the thresholds being the doubles beta/(1-alpha), (1-beta)/alpha), not of their roundings
+    for _ in range(ctx.n(150, 1500)):
+        al_, be_ = ctx.rng.choice([(0.05, 0.05), (0.25, 0.5), (0.5, 0.25), (0.1, 0.2), (0.01, 0.3)])
+        Af, Bf = be_ / (1 - al_), (1 - be_) / al_
+        hair = Fr(1, 2**90)
+        inside = [Fr(Af) + hair, Fr(Bf) - hair, Fr(1), (Fr(Af) + Fr(Bf)) / 2]
+        outside = [Fr(Af) - hair, Fr(Bf) + hair, Fr(Af), Fr(Bf), 10**400, Fr(1, 10**400)]
+        n_ = ctx.rng.randint(1, 6)
+        tabx = [ctx.rng.choice(inside if ctx.rng.random() < 0.7 else outside) for _ in range(n_ + 1)]
+        x_ = [ctx.rng.randint(0, 1) for _ in range(n_)]; ro_ = ctx.rng.random() < 0.8
+        r = sprt_call(S, (lambda xx, tabx=tabx: tabx[len(xx)]), al_, be_, x_, ro_)
+        want = spec(lambda xx: tabx[len(xx)], al_, be_, x_, ro_)
+        ctx.case(("exact-ratios", al_, be_, tuple(str(v) for v in tabx), ro_), True); ctx.count("exact-rational-or-huge-integer-ratios")
+        if r[0] != "ok" or list(r[1][0]) != want[0] or r[1][1] != want[1]:
+            ctx.violation("oracle", {"lr": "table of exact ratios by prefix length", "alpha": al_, "beta": be_, "thresholds": [Af, Bf],
+                                     "table_minus_thresholds": [[str(Fr(v) - Fr(Af))[:30], str(Fr(v) - Fr(Bf))[:30]] for v in tabx], "x": x_, "random_order": ro_,
+                                     "returned": str(r[1:])[:160], "expected_decision": want[0],
+                                     "issue": "Wald's rule applied to a rounded ratio (or the call fails): entries within 2^-90 of a threshold are on a definite side of it"}, site="sprt")
     # ---- long samples: the closed form must still be the product of per-observation ratios, and sprt must not
     #      decide where every exact prefix ratio stays inside (A, B)
     for _ in range(ctx.n(25, 250)):
